@@ -1,6 +1,6 @@
 ---- MODULE MC_C02_thorough_C01_F_q13_ids ----
 EXTENDS C01
-MC_DomH1 == {1,6}
+MC_DomH1 == {6}
 MC_DomH2 == {4}
 MC_DomH3 == {2,5}
 MC_DomH4 == {7}
@@ -12,11 +12,12 @@ MC_Shapes == {<<3,2>>, <<4,3>>}
 MC_IdSets == {S \in SUBSET ({1,2,5,11,12}) : Cardinality(S) \in {3, 4}}
 MC_KeyChoices == {5}
 MC_CoeffChoices == {0,9}
-MC_RandChoices == {1,2}
+MC_RandChoices == {1}
 MC_Msgs == {<<1>>}
 MC_MaxExtra == 1
 MC_EMIT == TRUE
 MC_ListOrders == {"asc"}
 MC_BatchAtEnd == FALSE
+MC_CoordPkps == {"current"}
 
 ====
